@@ -92,13 +92,16 @@ pub enum TblKind {
 pub struct Tbl {
     pub kind: TblKind,
     pub entries: Vec<(String, Node)>,
-    /// U2.c: children compared as a set
+    /// children compared as a set
     pub order_ambiguous: bool,
+    /// U2.c: keys whose place among their siblings is undecided (a table declared after one of its
+    /// sub-tables); the order of all the other children is still compared
+    pub floating: Vec<String>,
 }
 
 impl Tbl {
     pub fn new(kind: TblKind) -> Tbl {
-        Tbl { kind, entries: vec![], order_ambiguous: false }
+        Tbl { kind, entries: vec![], order_ambiguous: false, floating: vec![] }
     }
     pub fn get(&self, k: &str) -> Option<&Node> {
         self.entries.iter().find(|(kk, _)| kk == k).map(|(_, v)| v)
@@ -233,6 +236,16 @@ fn diff_tbl_at(a: &Tbl, b: &Tbl, c: Cmp, path: &mut String) -> Result<(), String
         ));
     }
     let ordered = c.ordered && !a.order_ambiguous && !b.order_ambiguous;
+    if ordered && (!a.floating.is_empty() || !b.floating.is_empty()) {
+        // order of the non-floating children
+        let fl = |k: &String| a.floating.contains(k) || b.floating.contains(k);
+        let ka: Vec<&String> = ea.iter().map(|e| &e.0).filter(|k| !fl(k)).collect();
+        let kb: Vec<&String> = eb.iter().map(|e| &e.0).filter(|k| !fl(k)).collect();
+        if ka != kb {
+            return Err(format!("at `{path}`: key order differs (ignoring {:?}, whose place is undecided): {ka:?} vs {kb:?}", a.floating.iter().chain(b.floating.iter()).collect::<Vec<_>>()));
+        }
+    }
+    let ordered = ordered && a.floating.is_empty() && b.floating.is_empty();
     for (i, (k, va)) in ea.iter().map(|e| (&e.0, &e.1)).enumerate() {
         let vb = if ordered {
             if &eb[i].0 != k {
